@@ -56,6 +56,12 @@ Theorem c07_final_only_refuted : C07_final_only_refuted.
 Proof. exact c07_final_only_refuted_proof. Qed.
 Print Assumptions c07_final_only_refuted.
 
+(* final blocks only FROM A CURSOR ahead of the hub's LIB: blocks at or below the cursor block are delivered again (the
+   filter's memory starts empty): the checker's final_fold (Some cursor block) fails - a finding, not repaired *)
+Theorem c07_final_cursor_refuted : C07_final_cursor_refuted.
+Proof. exact c07_final_cursor_refuted_proof. Qed.
+Print Assumptions c07_final_cursor_refuted.
+
 (* the fuel: a run ends with JFuel only if a burst of the hub exceeds the explicit bound (or through the fuel of the
    hub's lookups / the cursor resolver); partial: the bound is a hypothesis, the stream's fuel does not cover every world *)
 Theorem c07_fuel_enough_partial : C07_fuel_enough.
